@@ -154,7 +154,7 @@ var (
 
 	// Regexp to parse switch instruction.
 	reSwitch           = regexp.MustCompile(`^switch\s*(.*)`)
-	reSwitchCase       = regexp.MustCompile(`^case ([^<=>!]+)([<=>!]{2})*(.*)`)
+	reSwitchCase       = regexp.MustCompile(`^case ([^<=>!]+)(==|!=|>=|<=|>|<)?(.*)`)
 	reSwitchCaseHelper = regexp.MustCompile(`^case ([^(]+)\(*([^)]*)\)`)
 
 	// Regexp to parse include instruction.
